@@ -214,7 +214,7 @@ def _col_dict():
     return st.sampled_from(["py:float", "py:float", "float64", "float32"]).flatmap(one)
 
 
-_MIX_DT = ["py:int", "py:float", "py:bool", "int8", "int16", "int32", "int64", "uint8", "float32", "float64"]
+_MIX_DT = ["py:int", "py:float", "py:bool", "int8", "int16", "int32", "int64", "uint8", "float16", "float32", "float32", "float64"]
 
 
 def _mixval(dt):
@@ -230,17 +230,30 @@ def _mixval(dt):
     return st.booleans()
 
 
-def _col_mixed():
+def _col_mixed(narrow_first=False):
     tagged = st.sampled_from(_MIX_DT).flatmap(lambda dt: st.fixed_dictionaries({"dt": st.just(dt), "v": _mixval(dt)}))
-    return st.fixed_dictionaries({"cls": st.just("mixed"), "dt": st.just("mixed"), "e": _entries(tagged, lo=2)})
+    ents = _entries(tagged, lo=2)
+    if narrow_first:
+        first = st.sampled_from(["float32", "float32", "float16"]).flatmap(lambda dt: st.fixed_dictionaries({"dt": st.just(dt), "v": _mixval(dt)}))
+        ents = st.tuples(first, st.lists(_weighted((2, st.none()), (3, tagged)), min_size=1, max_size=10)).map(lambda t: [t[0]] + t[1])
+    return st.fixed_dictionaries({"cls": st.just("mixed"), "dt": st.just("mixed"), "e": ents})
 
 
-def _col_mixed_seq():
+def _col_mixed_seq(narrow_first=False):
     val = st.one_of(st.integers(-(2**53), 2**53), st.integers(-9, 9), st.floats(allow_nan=False), st.integers(-8, 8).map(lambda k: k / 2.0))
-    seq = st.fixed_dictionaries({"sh": st.lists(_DIM0, min_size=3, max_size=3), "pool": st.lists(val, min_size=1, max_size=6), "f": st.sampled_from(["l", "l", "t"])})
+    # "edt": the row is an ndarray of that real width (values rounded to it when the row is built); "py" = nested list
+    seq = st.fixed_dictionaries({"sh": st.lists(_DIM0, min_size=3, max_size=3), "pool": st.lists(val, min_size=1, max_size=6), "f": st.sampled_from(["l", "l", "t"]),
+                                 "edt": st.sampled_from(["py", "py", "py", "float32", "float32", "float16", "float64"])})
+    ents = _entries(seq)
+    fixed = st.booleans()
+    if narrow_first:
+        first = st.fixed_dictionaries({"sh": st.lists(_DIM, min_size=3, max_size=3), "pool": st.lists(val, min_size=1, max_size=6), "f": st.just("l"),
+                                       "edt": st.sampled_from(["float32", "float32", "float16"])})
+        ents = st.tuples(first, st.lists(_weighted((2, st.none()), (3, seq)), min_size=1, max_size=8)).map(lambda t: [t[0]] + t[1])
+        fixed = st.just(True)
     return st.fixed_dictionaries(
-        {"cls": st.just("mixed-seq"), "dt": st.just("mixed"), "ndim": st.sampled_from([1, 1, 2]), "fixed": st.booleans(),
-         "shape": st.lists(_DIM, min_size=3, max_size=3), "e": _entries(seq)}
+        {"cls": st.just("mixed-seq"), "dt": st.just("mixed"), "ndim": st.sampled_from([1, 1, 2]), "fixed": fixed,
+         "shape": st.lists(_DIM, min_size=3, max_size=3), "e": ents}
     )
 
 
@@ -268,6 +281,17 @@ def column_strategy(classes=None):
         else:
             s = _col_mixed_seq()
         opts.append((w, s))
+    # columns whose first set entry is a narrow real (float16/float32) with unset entries elsewhere: writable since
+    # NONE_MAP knows these types; the first entry's type decides how the whole column is stored
+    narrow = st.sampled_from(["float32", "float32", "float16"])
+    if classes is None or "scalar" in classes:
+        opts.append((1, narrow.flatmap(_col_scalar)))
+    if classes is None or "fixed" in classes:
+        opts.append((1, narrow.flatmap(_col_fixed)))
+    if classes is None or "mixed" in classes:
+        opts.append((1, _col_mixed(narrow_first=True)))
+    if classes is None or "mixed-seq" in classes:
+        opts.append((1, _col_mixed_seq(narrow_first=True)))
     return _weighted(*opts)
 
 
@@ -344,6 +368,7 @@ def _nobj(case, cols):
 
 def build_column(col, n):
     """Values (one per object) described by ``col``; entries are cycled to length ``n``."""
+    np = _np()
     cls, dt, ents = col["cls"], col["dt"], col["e"]
     out = []
     for i in range(n):
@@ -365,7 +390,11 @@ def build_column(col, n):
                 shape = e["sh"][:ndim]
                 if col.get("mixnd") and i % 2:
                     shape = e["sh"][: 1 + (ndim % 3)]
-            out.append(_mk_seq("py:mixed" if dt == "mixed" else dt, e, list(shape)))
+            if dt == "mixed" and e.get("edt", "py") != "py":
+                with np.errstate(all="ignore"):
+                    out.append(_mk_seq(e["edt"], dict(e, f="a"), list(shape)))
+            else:
+                out.append(_mk_seq("py:mixed" if dt == "mixed" else dt, e, list(shape)))
         else:
             out.append(_mk_scalar(dt, e))
     return out
@@ -505,16 +534,48 @@ def known_shape(values, route):
             elif isinstance(v, (int, float, np.integer, np.floating)) and not isinstance(v, (bool, np.bool_)):
                 # a number that the first entry's integer type cannot hold exactly (non-integral, negative for an
                 # unsigned type, out of range): the cast to the first entry's type changes it
-                fv = float(v)
-                if isinstance(v, (float, np.floating)) and not math.isfinite(fv):
-                    continue  # NaN/inf among integers: not judged here
-                if fv != math.floor(fv):
-                    return SIG_CAST_FIRST
+                if isinstance(v, (int, np.integer)):
+                    iv = int(v)  # exact: float(v) would round 64-bit magnitudes out of range
+                else:
+                    fv = float(v)
+                    if not math.isfinite(fv):
+                        continue  # NaN/inf among integers: not judged here
+                    if fv != math.floor(fv):
+                        return SIG_CAST_FIRST
+                    iv = int(fv)
                 if ftype is not int:
                     info = np.iinfo(ftype)
-                    if not (info.min <= int(fv) <= info.max):
+                    if not (info.min <= iv <= info.max):
                         return SIG_CAST_FIRST
+    if ftype in (np.float16, np.float32):
+        # same call site (data.astype(type of the first non-None entry)), reachable since NONE_MAP knows float16/float32
+        # (cbec4df): any other entry - scalar, or element of a row after the rows were stacked with np.array() - that the
+        # narrow real type cannot hold exactly is changed by the cast (precision loss, overflow to inf, large ints)
+        for v in values:
+            if v is None:
+                continue
+            elems = (list(v.ravel()) if isinstance(v, np.ndarray) else _flatten(v)) if _is_seq(v) else [v]
+            if not all(_survives_cast(ftype, x) for x in elems):
+                return SIG_CAST_FIRST
     return None
+
+
+def _survives_cast(ftype, x):
+    """True when the number ``x`` is unchanged by a cast to the real type ``ftype`` (NaN stays the unset marker)."""
+    np = _np()
+    if x is None or isinstance(x, (bool, np.bool_, str)):
+        return True
+    with np.errstate(all="ignore"):
+        if isinstance(x, (float, np.floating)):
+            fx = float(x)
+            return math.isnan(fx) or float(ftype(fx)) == fx
+        if isinstance(x, (int, np.integer)):
+            try:
+                c = float(ftype(int(x)))
+            except OverflowError:
+                return False
+            return math.isfinite(c) and int(c) == int(x)
+    return True
 
 
 def avoid_documented_sentinel(values, out):
@@ -734,7 +795,23 @@ def _class_labels(out, col, values, route):
         tags.append("mixed-kind")
     for t in tags:
         out.label("has:" + t)
+    if f["none"] and not f["allnone"] and not f["dict"] and "ragged" not in tags:
+        first = next(v for v in values if v is not None)
+        ft = first.dtype.type if isinstance(first, np.ndarray) else (np.array(first).dtype.type if _is_seq(first) and _regular(first) else type(first))
+        if ft in (np.float16, np.float32):
+            out.label("first-entry:%s%s+none" % (ft.__name__, "-array" if _is_seq(first) else ""))
     return tags
+
+
+def _expected_width(col, values):
+    """dtype a placeholder-scheme column of one NumPy real/integer width must be stored with, else None."""
+    np = _np()
+    if col["cls"] not in ("scalar", "fixed") or col["dt"].startswith("py:") or col["dt"] not in list(_INT_RANGES) + list(_FLOAT_WIDTH):
+        return None
+    f = features(values)
+    if not f["none"] or f["allnone"]:
+        return None
+    return np.dtype(col["dt"])
 
 
 def _attempt(out, col, f):
@@ -908,6 +985,8 @@ def sentinel_execute(case):
         out.label("rejected:%s%s" % (col["cls"], "+none" if f["none"] else ""), "rejected-dt:" + col["dt"])
         return out
     out.check(stored.dtype.kind != "O", "l0_sentinel/object-dtype-stored", lambda: "%r -> %r" % (values, stored))
+    want = _expected_width(col, values)
+    out.check(want is None or stored.dtype == want, "l0_sentinel/stored-width-changed", lambda: "%r stored as %r" % (values, stored.dtype))
     if not f["none"]:
         # nothing to mark: the reader is only invoked for data flagged as containing None
         read = stored.tolist()
@@ -1016,6 +1095,8 @@ def pack_execute(case):
             if data is None:
                 load = None
             else:
+                want = _expected_width(col, values) if route in ("db", "object") and not _db_jagged(values) or route == "object" else None
+                out.check(want is None or data.dtype == want, "l0_pack/stored-width-changed", lambda: "%r stored as %r" % (values, data.dtype))
                 load = _store_and_load(group, "c05", data, attrs)
         except Exception as exc:  # noqa: BLE001  (any error while writing is a rejection)
             if _exc_where(exc) is None and not isinstance(exc, (ValueError, TypeError, OverflowError, UnicodeError)):
@@ -1144,6 +1225,10 @@ def _l1_roundtrip(out, case, columns, flagvals):
             if default is None and all(v is None for v in values):
                 out.label("all-unset")
                 out.check(name not in h5, "l1_database/all-unset-stored", lambda: "an all-None column stored a dataset")
+            want = _expected_width(col, values) if default is None and not _db_jagged(values) else None
+            if want is not None and name in h5:
+                out.check(h5[name].dtype == want, "l1_database/stored-width-changed",
+                          lambda: "%r stored as %r" % (values, h5[name].dtype))
         try:
             db._readParams(group, cls.__name__, fresh)
         except Exception as exc:  # noqa: BLE001
